@@ -5,14 +5,18 @@ import os, sys, re, json, time, shutil, subprocess, resource, importlib.util, ha
 from concurrent.futures import ThreadPoolExecutor
 
 VERIF = os.path.dirname(os.path.dirname(os.path.abspath(__file__)))
-REPO = os.environ.get('VP_REPO', '/repo')
+REPO = os.path.abspath(os.environ.get('VP_REPO', '/repo'))
+# VP_REPO=<scratch copy> runs the same checks against another tree (mutation testing); its build, evidence and replay
+# files are kept apart (.build/alt_<hash>/...) so that the registered evidence under evidence/ only ever describes /repo
+ALT = None if REPO == '/repo' else hashlib.sha1(REPO.encode()).hexdigest()[:8]
+OUTROOT = VERIF if ALT is None else os.path.join(VERIF, '.build', 'alt_' + ALT)
 TOOLS = os.path.join(VERIF, 'tools')
 RT = os.path.join(VERIF, 'rt')
 GUARD = 'ONETBB_VERIF'
 NCPU = int(os.environ.get('VP_JOBS', '16'))
 
 CXX_BASE = ['clang++-14', '-std=c++17', '-O1', '-fno-access-control', '-fno-vectorize', '-fno-slp-vectorize',
-            '-fno-unroll-loops', '-DNDEBUG', '-D' + GUARD, '-I' + REPO + '/include', '-I' + RT, '-S', '-emit-llvm',
+            '-fno-unroll-loops', '-DNDEBUG', '-D' + GUARD, '-I' + REPO + '/include', '-I' + REPO, '-I' + RT, '-S', '-emit-llvm',
             '-mllvm', '-inline-threshold=100000', '-Wno-everything']
 CBMC_BASE = ['--no-standard-checks', '--bounds-check', '--pointer-check', '--div-by-zero-check', '--undefined-shift-check',
              '--unwinding-assertions', '--no-malloc-may-fail', '--drop-unused-functions', '--verbosity', '8']
@@ -97,7 +101,7 @@ def _build_unit(pid, uname, u, d):
     os.makedirs(d, exist_ok=True)
     t0 = time.time()
     wrapper = os.path.join(VERIF, 'props', pid, u['wrapper'])
-    flags = CXX_BASE + u.get('cxxflags', [])
+    flags = CXX_BASE + [f.replace('{REPO}', REPO) for f in u.get('cxxflags', [])]
     if not any(f.startswith('-fexceptions') for f in flags) and '-fno-exceptions' not in flags and not u.get('exceptions'):
         flags = flags + ['-fno-exceptions']
     cuts = u.get('cut', [])
@@ -246,7 +250,7 @@ def replay_failure(pid, h, sc, unit, defines, prop_id, prop, res):
     cmd = cbmc_cmd(h, unit['dir'], pid, defines, extra=['--trace', '--property', prop_id])
     rc, out, dt, to = sh(cmd, timeout=h.get('timeout', 600) * 2, mem_gb=h.get('mem_gb', 12))
     vals = trace_values(out)
-    rdir = os.path.join(VERIF, 'replay', pid); os.makedirs(rdir, exist_ok=True)
+    rdir = os.path.join(OUTROOT, 'replay', pid); os.makedirs(rdir, exist_ok=True)
     base = os.path.join(rdir, '%s__%s' % (h['name'], scen_name(sc)))
     rec = {'property': pid, 'harness': h['name'], 'scenario': sc, 'defines': defines, 'assertion': prop, 'assertion_id': prop_id,
            'nondet_values': vals, 'unit': h['unit']}
@@ -279,8 +283,8 @@ def selftest_unit(pid, uname, u, unit):
     main_c = os.path.join(RT, 'selftest_main.c')
     cxx = ['g++', '-std=c++17', '-O1', '-w', '-fno-access-control' if False else '-fpermissive', '-DNDEBUG', '-D' + GUARD, '-I' + REPO + '/include', '-I' + RT]
     # g++ has no -fno-access-control equivalent that is safe here: use clang++ for the real build as well (same front end as the IR)
-    cxx = ['clang++-14', '-std=c++17', '-O1', '-fno-access-control', '-DNDEBUG', '-D' + GUARD, '-I' + REPO + '/include', '-I' + RT, '-Wno-everything'] + \
-          [f for f in u.get('cxxflags', []) if not f.startswith('-mllvm')]
+    cxx = ['clang++-14', '-std=c++17', '-O1', '-fno-access-control', '-DNDEBUG', '-D' + GUARD, '-I' + REPO + '/include', '-I' + REPO, '-I' + RT, '-Wno-everything'] + \
+          [f.replace('{REPO}', REPO) for f in u.get('cxxflags', []) if not f.startswith('-mllvm')]
     if '-fno-exceptions' not in cxx and not u.get('exceptions'): cxx.append('-fno-exceptions')
     rc, out, dt, to = sh(cxx + ['-c', wrapper, '-o', os.path.join(d, 'w_real.o')], timeout=300)
     if rc != 0: raise Inconclusive('selftest: real build failed: ' + out[-1500:])
@@ -319,7 +323,7 @@ def run_property(pid, tier='quick', only=None, keep=False, jobs=NCPU):
     t0 = time.time()
     spec = load_spec(pid)
     seed = int(os.environ.get('VERIF_SEED', '0') or 0)
-    bdir = os.path.join(VERIF, '.build', pid)
+    bdir = os.path.join(OUTROOT, '.build' if ALT is None else 'b', pid + ('_' + re.sub(r'\W', '_', only) if only and os.environ.get('VP_PAR') else ''))
     shutil.rmtree(bdir, ignore_errors=True); os.makedirs(bdir, exist_ok=True)
     known = load_known(pid)
     queries = []
@@ -374,7 +378,7 @@ def run_property(pid, tier='quick', only=None, keep=False, jobs=NCPU):
             print('KNOWN-FINDING: property=%s %s' % (pid, kf['what']))
     for r, kf in known_hits:
         print('KNOWN-FINDING: property=%s %s' % (pid, kf['what']))
-    write_evidence(pid, spec, tier, seed, results, selftests, violations, inconcl, time.time() - t0)
+    write_evidence(pid, spec, tier, seed, results, selftests, violations, inconcl, time.time() - t0, only)
     if not keep: shutil.rmtree(bdir, ignore_errors=True)
     for r in violations:
         print('VIOLATION property=%s replay=%s' % (pid, r['replay']))
@@ -394,7 +398,7 @@ def spec_unit_of(spec, hname):
     for h in spec.HARNESSES:
         if h['name'] == hname: return h['unit']
 
-def write_evidence(pid, spec, tier, seed, results, selftests, violations, inconcl, wall):
+def write_evidence(pid, spec, tier, seed, results, selftests, violations, inconcl, wall, only_filter=None):
     passed = [r for r in results if r['status'] == 'pass']
     funcs = sorted(set(f for r in results for f in r.get('functions', [])))
     samples = []
@@ -430,14 +434,16 @@ def write_evidence(pid, spec, tier, seed, results, selftests, violations, inconc
             'sequential consistency unless a scenario says TSO; weaker memory models outside the claim'],
         'wall_s': round(wall, 2), 'violations': len(violations),
     }
-    os.makedirs(os.path.join(VERIF, 'evidence'), exist_ok=True)
-    json.dump(ev, open(os.path.join(VERIF, 'evidence', pid + '.json'), 'w'), indent=1)
+    os.makedirs(os.path.join(OUTROOT, 'evidence'), exist_ok=True)
+    if only_filter:   # partial run (--only): never overwrite the registered evidence with a subset
+        json.dump(ev, open(os.path.join(OUTROOT, 'evidence', pid + '.partial.json'), 'w'), indent=1); return
+    json.dump(ev, open(os.path.join(OUTROOT, 'evidence', pid + '.json'), 'w'), indent=1)
 
 def do_replay(path):
     rec = json.load(open(path))
     pid = rec['property']; spec = load_spec(pid)
     h = next(h for h in spec.HARNESSES if h['name'] == rec['harness'])
-    bdir = os.path.join(VERIF, '.build', pid + '_replay'); shutil.rmtree(bdir, ignore_errors=True); os.makedirs(bdir)
+    bdir = os.path.join(OUTROOT, '.build' if ALT is None else 'b', pid + '_replay'); shutil.rmtree(bdir, ignore_errors=True); os.makedirs(bdir)
     u = dict(spec.UNITS[h['unit']]); u.update(h.get('unit_override', {}))
     unit = build_unit(pid, h['unit'], u, bdir)
     ok, detail = native_replay(pid, h, unit['dir'], rec['defines'], rec['nondet_values'], os.path.join(bdir, 'replay'))
